@@ -4,9 +4,15 @@ Core/Base.vos Core/Base.vok Core/Base.required_vos: Core/Base.v
 Core/Prog.vo Core/Prog.glob Core/Prog.v.beautified Core/Prog.required_vo: Core/Prog.v Core/Base.vo
 Core/Prog.vio: Core/Prog.v Core/Base.vio
 Core/Prog.vos Core/Prog.vok Core/Prog.required_vos: Core/Prog.v Core/Base.vos
+Py/Sig.vo Py/Sig.glob Py/Sig.v.beautified Py/Sig.required_vo: Py/Sig.v Core/Base.vo
+Py/Sig.vio: Py/Sig.v Core/Base.vio
+Py/Sig.vos Py/Sig.vok Py/Sig.required_vos: Py/Sig.v Core/Base.vos
 Sem/Interp.vo Sem/Interp.glob Sem/Interp.v.beautified Sem/Interp.required_vo: Sem/Interp.v Core/Base.vo Core/Prog.vo
 Sem/Interp.vio: Sem/Interp.v Core/Base.vio Core/Prog.vio
 Sem/Interp.vos Sem/Interp.vok Sem/Interp.required_vos: Sem/Interp.v Core/Base.vos Core/Prog.vos
+Sem/Model.vo Sem/Model.glob Sem/Model.v.beautified Sem/Model.required_vo: Sem/Model.v Core/Base.vo Core/Prog.vo Py/Sig.vo
+Sem/Model.vio: Sem/Model.v Core/Base.vio Core/Prog.vio Py/Sig.vio
+Sem/Model.vos Sem/Model.vok Sem/Model.required_vos: Sem/Model.v Core/Base.vos Core/Prog.vos Py/Sig.vos
 Sem/InterpFacts.vo Sem/InterpFacts.glob Sem/InterpFacts.v.beautified Sem/InterpFacts.required_vo: Sem/InterpFacts.v Core/Base.vo Core/Prog.vo Sem/Interp.vo
 Sem/InterpFacts.vio: Sem/InterpFacts.v Core/Base.vio Core/Prog.vio Sem/Interp.vio
 Sem/InterpFacts.vos Sem/InterpFacts.vok Sem/InterpFacts.required_vos: Sem/InterpFacts.v Core/Base.vos Core/Prog.vos Sem/Interp.vos
@@ -16,6 +22,18 @@ Sem/Show.vos Sem/Show.vok Sem/Show.required_vos: Sem/Show.v Core/Base.vos
 Gen/State.vo Gen/State.glob Gen/State.v.beautified Gen/State.required_vo: Gen/State.v Core/Base.vo Core/Prog.vo
 Gen/State.vio: Gen/State.v Core/Base.vio Core/Prog.vio
 Gen/State.vos Gen/State.vok Gen/State.required_vos: Gen/State.v Core/Base.vos Core/Prog.vos
+Gen/Validators.vo Gen/Validators.glob Gen/Validators.v.beautified Gen/Validators.required_vo: Gen/Validators.v Core/Base.vo Core/Prog.vo Py/Sig.vo Sem/Model.vo
+Gen/Validators.vio: Gen/Validators.v Core/Base.vio Core/Prog.vio Py/Sig.vio Sem/Model.vio
+Gen/Validators.vos Gen/Validators.vok Gen/Validators.required_vos: Gen/Validators.v Core/Base.vos Core/Prog.vos Py/Sig.vos Sem/Model.vos
+Gen/HasPatcher.vo Gen/HasPatcher.glob Gen/HasPatcher.v.beautified Gen/HasPatcher.required_vo: Gen/HasPatcher.v Core/Base.vo Core/Prog.vo Py/Sig.vo Sem/Model.vo
+Gen/HasPatcher.vio: Gen/HasPatcher.v Core/Base.vio Core/Prog.vio Py/Sig.vio Sem/Model.vio
+Gen/HasPatcher.vos Gen/HasPatcher.vok Gen/HasPatcher.required_vos: Gen/HasPatcher.v Core/Base.vos Core/Prog.vos Py/Sig.vos Sem/Model.vos
+Gen/Contracts.vo Gen/Contracts.glob Gen/Contracts.v.beautified Gen/Contracts.required_vo: Gen/Contracts.v Core/Base.vo Core/Prog.vo Py/Sig.vo Sem/Interp.vo Sem/Model.vo Gen/Validators.vo Gen/HasPatcher.vo
+Gen/Contracts.vio: Gen/Contracts.v Core/Base.vio Core/Prog.vio Py/Sig.vio Sem/Interp.vio Sem/Model.vio Gen/Validators.vio Gen/HasPatcher.vio
+Gen/Contracts.vos Gen/Contracts.vok Gen/Contracts.required_vos: Gen/Contracts.v Core/Base.vos Core/Prog.vos Py/Sig.vos Sem/Interp.vos Sem/Model.vos Gen/Validators.vos Gen/HasPatcher.vos
+Sem/Scenario.vo Sem/Scenario.glob Sem/Scenario.v.beautified Sem/Scenario.required_vo: Sem/Scenario.v Core/Base.vo Core/Prog.vo Py/Sig.vo Sem/Interp.vo Sem/InterpFacts.vo Sem/Model.vo Sem/Show.vo Gen/State.vo Sem/ScnSwitch.vo Gen/Validators.vo Gen/HasPatcher.vo Gen/Contracts.vo
+Sem/Scenario.vio: Sem/Scenario.v Core/Base.vio Core/Prog.vio Py/Sig.vio Sem/Interp.vio Sem/InterpFacts.vio Sem/Model.vio Sem/Show.vio Gen/State.vio Sem/ScnSwitch.vio Gen/Validators.vio Gen/HasPatcher.vio Gen/Contracts.vio
+Sem/Scenario.vos Sem/Scenario.vok Sem/Scenario.required_vos: Sem/Scenario.v Core/Base.vos Core/Prog.vos Py/Sig.vos Sem/Interp.vos Sem/InterpFacts.vos Sem/Model.vos Sem/Show.vos Gen/State.vos Sem/ScnSwitch.vos Gen/Validators.vos Gen/HasPatcher.vos Gen/Contracts.vos
 Sem/ScnSwitch.vo Sem/ScnSwitch.glob Sem/ScnSwitch.v.beautified Sem/ScnSwitch.required_vo: Sem/ScnSwitch.v Core/Base.vo Core/Prog.vo Sem/Interp.vo Sem/Show.vo Gen/State.vo
 Sem/ScnSwitch.vio: Sem/ScnSwitch.v Core/Base.vio Core/Prog.vio Sem/Interp.vio Sem/Show.vio Gen/State.vio
 Sem/ScnSwitch.vos Sem/ScnSwitch.vok Sem/ScnSwitch.required_vos: Sem/ScnSwitch.v Core/Base.vos Core/Prog.vos Sem/Interp.vos Sem/Show.vos Gen/State.vos
